@@ -8,11 +8,16 @@ import os
 from .index import AnalysisError
 
 
+_SHARED_INDEX = None  # the parent's program index, inherited by forked workers (parsing 110 modules once)
+
+
 def _work(args):
     pid, tier, repo, modname, fname, k, payload = args
     from .report import Ctx
 
     c = Ctx(pid, tier, repo, 0)
+    if _SHARED_INDEX is not None and _SHARED_INDEX.repo_root == __import__("os").path.abspath(repo):
+        c._index = _SHARED_INDEX
     err = None
     try:
         getattr(importlib.import_module(modname), fname)(c, payload)
@@ -30,6 +35,8 @@ def run_jobs(ctx, modname: str, fname: str, payloads: list, labels: list[str] | 
     """Call modname.fname(private_ctx, payload) for every payload (16 worker processes, serial fallback);
     obligations, units and notes are merged into ctx in payload order.  Returns the first analysis error
     (label-prefixed) or None — the caller decides when to raise it."""
+    global _SHARED_INDEX
+    _SHARED_INDEX = ctx.index
     jobs = [(ctx.pid, ctx.tier, ctx.repo, modname, fname, k, p) for k, p in enumerate(payloads)]
     results = None
     workers = min(len(jobs), os.cpu_count() or 1, 16)
